@@ -62,12 +62,15 @@ func (an *Analysis) CallsRole(in ssa.Instruction, role string) bool {
 	if target == nil {
 		return false
 	}
+	if an.A.roleOf[in.Parent()] == role && in.Parent() != target {
+		return false // the call inside a forwarder of the role is part of the role, not a use of it
+	}
 	for _, c := range an.P.Callees(ci) {
-		if c == target {
+		if c == target || an.A.roleOf[c] == role {
 			return true
 		}
 		for _, t := range an.AdapterTargets(c) {
-			if t == target {
+			if t == target || an.A.roleOf[t] == role {
 				return true
 			}
 		}
